@@ -1438,7 +1438,20 @@ func (g Gateway) Delete(ctx context.Context, in *hydrapb.DeleteRequest) (*hydrap
 				statusPair := &hydrapb.KeyStatusPair{
 					Key: key,
 				}
-				if err := swampInterface.DeleteTreasure(key, false); err != nil {
+				err := swampInterface.DeleteTreasure(key, false)
+				if err != nil && err.Error() == swamp.ErrorSwampIsClosed {
+					// the instance this request holds is gone (an earlier key of this request was its last one and the
+					// auto-destroy ran): the remaining keys are deleted on the instance that is mapped now, if any
+					err = errors.New(swamp.ErrorTreasureDoesNotExists)
+					if exists, exErr := hydraInterface.IsExistSwamp(swampRequest.GetIslandID(), swampNameObj); exErr == nil && exists {
+						if fresh, sErr := hydraInterface.SummonSwamp(ctx, swampRequest.GetIslandID(), swampNameObj); sErr == nil {
+							fresh.BeginVigil()
+							err = fresh.DeleteTreasure(key, false)
+							fresh.CeaseVigil()
+						}
+					}
+				}
+				if err != nil {
 					statusPair.Status = hydrapb.Status_NOT_FOUND
 
 				} else {
